@@ -156,6 +156,17 @@ def one_run(n=10, batch_size=None, batch_seed=3, max_iter=40, patience=5, atol=1
         recs = sorted((r for r in recs if r["event"] == "optim_batches"), key=lambda r: r["while_i"])
         ev["batches"] = [{"i": int(r["while_i"]), "subkey": f"{r['subkey'][0]}:{r['subkey'][1]}",
                           "batches": [[int(v) for v in b] for b in r["batches"]]} for r in recs]
+        if batch_size and batch_size < n:
+            # the same data with other batch seeds: the first iteration's batches (they are drawn from the seed)
+            ev["first_batches_other_seeds"] = []
+            for other in (batch_seed + 1, batch_seed + 2):
+                open(path, "w").close()
+                optim_flat(build_model(n, seed), ["coef"], optimizer=optax.adam(lr), stopper=Stopper(max_iter=2, patience=2),
+                           batch_size=batch_size, batch_seed=other, progress_bar=False)
+                jax.effects_barrier()
+                r2 = [json.loads(line) for line in open(path)] if os.path.getsize(path) else []
+                r2 = sorted((r for r in r2 if r["event"] == "optim_batches"), key=lambda r: r["while_i"])
+                ev["first_batches_other_seeds"].append([[int(v) for v in b] for b in r2[0]["batches"]] if r2 else [])
     except Exception as ex:  # noqa: BLE001
         import traceback
         ev["crash"] = f"{type(ex).__name__}: {ex}"[:200] + " | " + traceback.format_exc()[-500:]
